@@ -229,26 +229,38 @@ example : nodesNoNl WQuirks.spec (Nodes.ofList (hoistImports
     [.comment [32, 97, 10, 32, 32, 32, 98, 32], .atBlock [102] (some ⟨[97, 10, 98], [97, 10, 98]⟩) .nil]))
     = true := by decide
 
-/-- As is: under the hypothesis that comment text and at-rule arguments have no line break. -/
-theorem asis_compressed_no_newline_partial (items : List Node)
+/-- The code as it is since b20c1a1 / b5e4a2e: the same statement, same hypothesis as the
+specification model (multi-line comments and at-rule arguments are covered). -/
+theorem asis_compressed_no_newline (items : List Node)
     (h : nodesNoNl WQuirks.asis (Nodes.ofList (hoistImports items)) = true) :
     ∀ x ∈ (intoBuffer WQuirks.asis .compressed items).dropLast, x ≠ 10 :=
   compressed_no_newline _ items h
 
 example : nodesNoNl WQuirks.asis (Nodes.ofList (hoistImports
+    [.comment [32, 97, 10, 32, 32, 32, 98, 32], .atBlock [102] (some ⟨[97, 10, 98], [97, 10, 98]⟩) .nil]))
+    = true := by decide
+
+/-- Before those repairs: under the hypothesis that comment text and at-rule arguments have
+no line break. -/
+theorem old_compressed_no_newline_partial (items : List Node)
+    (h : nodesNoNl WQuirks.old (Nodes.ofList (hoistImports items)) = true) :
+    ∀ x ∈ (intoBuffer WQuirks.old .compressed items).dropLast, x ≠ 10 :=
+  compressed_no_newline _ items h
+
+example : nodesNoNl WQuirks.old (Nodes.ofList (hoistImports
     [.comment [32, 97, 32], .rule (some ⟨[97], [97]⟩) (.cons (.prop [98] ⟨[99, 10, 100], [99, 10, 100]⟩) .nil)]))
     = true := by decide
 
-/-- Refutation (`commentReindentCompressed`): the plain-CSS comment `/* a\n   b */` in
+/-- Refutation (`commentReindentCompressed`, code before b20c1a1): the plain-CSS comment `/* a\n   b */` in
 compressed style: `Comment::write` runs `text.replace("", "\n")`. -/
-theorem asis_comment_newline_witness :
-    intoBuffer WQuirks.asis .compressed [.comment [32, 97, 10, 32, 32, 32, 98, 32]] =
+theorem old_comment_newline_witness :
+    intoBuffer WQuirks.old .compressed [.comment [32, 97, 10, 32, 32, 32, 98, 32]] =
       [47, 42, 10, 32, 10, 97, 10, 10, 10, 32, 10, 32, 10, 32, 10, 98, 10, 32, 10, 42, 47, 10] := by
   decide
 
-/-- Refutation (`atArgsRawCompressed`): `@f a\nb{}` keeps its line break. -/
-theorem asis_atargs_newline_witness :
-    intoBuffer WQuirks.asis .compressed [.atBlock [102] (some ⟨[97, 10, 98], [97, 10, 98]⟩) .nil] =
+/-- Refutation (`atArgsRawCompressed`, code before b5e4a2e): `@f a\nb{}` keeps its line break. -/
+theorem old_atargs_newline_witness :
+    intoBuffer WQuirks.old .compressed [.atBlock [102] (some ⟨[97, 10, 98], [97, 10, 98]⟩) .nil] =
       [64, 102, 32, 97, 10, 98, 123, 125, 10] := by
   decide
 
